@@ -143,7 +143,9 @@ func (filter *SearchableQueryFilter) filterColumnEqualComparisonExprs(whereNode 
 
 		// <VALUE> = <ColName> and <VALUE> <> <ColName> are the same comparisons as <ColName> = <VALUE> and
 		// <ColName> <> <VALUE>: use the second form to process both of them
-		if isValueExpr(expr.Lexpr) && expr.Rexpr.GetColumnRef() != nil && len(expr.Name) == 1 {
+		// (NULLIF(<VALUE>, <ColName>) is an A_Expr named "=" too, but it is not symmetric)
+		symmetric := expr.Kind == pg_query.A_Expr_Kind_AEXPR_OP || expr.Kind == pg_query.A_Expr_Kind_AEXPR_DISTINCT || expr.Kind == pg_query.A_Expr_Kind_AEXPR_NOT_DISTINCT
+		if symmetric && isValueExpr(expr.Lexpr) && expr.Rexpr.GetColumnRef() != nil && len(expr.Name) == 1 {
 			if val := expr.Name[0].GetString_(); val != nil && (val.GetSval() == "=" || val.GetSval() == "<>") {
 				expr.Lexpr, expr.Rexpr = expr.Rexpr, expr.Lexpr
 			}
